@@ -13,6 +13,19 @@ theorem find_incr_ne (t : TtlMap) (k : Key) (by_ : Int) (ttl : Option Nat) {k' :
   · rfl
   · rw [find_write, if_neg h]
 
+theorem incr_none {t : TtlMap} {k : Key} (h : t.find k = none) (by_ : Int) (ttl : Option Nat) :
+    t.incr k by_ ttl = (t.write k (.int (0 + by_)) (if 0 + by_ = 1 then ttl else none), .int (0 + by_)) := by
+  unfold incr; simp [h]
+
+theorem incr_some {t : TtlMap} {k : Key} {e : Entry} {c : Int} (h : t.find k = some e) (hc : e.val.toInt? = some c)
+    (by_ : Int) (ttl : Option Nat) :
+    t.incr k by_ ttl = (t.write k (.int (c + by_)) (if c + by_ = 1 then ttl else none), .int (c + by_)) := by
+  unfold incr; simp [h, hc]
+
+theorem incr_err {t : TtlMap} {k : Key} {e : Entry} (h : t.find k = some e) (hc : e.val.toInt? = none)
+    (by_ : Int) (ttl : Option Nat) : t.incr k by_ ttl = (t, .err) := by
+  unfold incr; simp [h, hc]
+
 end TtlMap
 
 namespace ATx
